@@ -99,6 +99,7 @@ def run(prog, chk):
         "TTF options reach their consumers by name (R02.9)",
         "nested component transformations are composed as outer o inner with fontTools' Transform algebra on every path of _flattenComponent; no Transform is assembled from hand-computed components (R02.10)",
     ]
+    chk.decided += ["components are only resolved into contours by util.decomposeCompositeGlyph; no other decomposing pen / component removal outside reviewed functions (R02.11, shared with C15)"]
     chk.not_decided += ["the cu2qu error bound itself", "point-for-point equality", "maxp counts (fontTools recalc)"]
     r021(prog, chk)
     r022(prog, chk)
@@ -108,6 +109,8 @@ def run(prog, chk):
     r027(prog, chk)
     r029(prog, chk)
     r0210(prog, chk)
+    from .c15 import check_single_decomposer
+    check_single_decomposer(prog, chk, "R02.11")
 
 
 def _append_of(prog, fi, ctor_name):
